@@ -706,13 +706,20 @@ func c19Rel(from, to []string) string {
 	return strings.Join(parts, "/")
 }
 
+// suffixes that continue a sibling's name with a byte below '/' (space ! # + , - .) or above it
+var c19FamSuffixes = []string{".d", "-old", ".", "-", "+x", ",v", " 2", "#1", ".cfg", "0", "_", "a", "~", "!", "%", ".d.e"}
+
 func c19GenTree(r *Rand, thorough bool) (*c19Node, string) {
+	famMode := r.Chance(40)
 	root := c19Dir()
 	w := c19Dir()
 	root.add("w", w)
 	budget := 4 + r.Intn(8)
 	if thorough && r.Chance(30) {
 		budget += r.Intn(8)
+	}
+	if famMode {
+		budget += 4 + r.Intn(6)
 	}
 	maxDepth := 2
 	if r.Chance(30) {
@@ -726,7 +733,17 @@ func c19GenTree(r *Rand, thorough bool) (*c19Node, string) {
 		}
 		for i := 0; i < cnt && budget > 0; i++ {
 			name := c19GenName(r)
-			if depth < maxDepth && r.Chance(40) {
+			mkDir := depth < maxDepth && r.Chance(40)
+			// prefix families: a sibling whose name extends an existing one with a byte below or
+			// above '/' (path order then differs from name order: `conf/x` vs `conf.d/x`)
+			if famMode && len(n.names) > 0 && r.Chance(55) {
+				base := n.names[r.Intn(len(n.names))]
+				name = base + r.Pick(c19FamSuffixes)
+				if n.kids[base].kind == 'd' {
+					mkDir = depth < maxDepth+1 && r.Chance(75)
+				}
+			}
+			if mkDir {
 				d := c19Dir()
 				if n.add(name, d) {
 					budget--
@@ -1011,6 +1028,35 @@ func c19GenCase(r *Rand, thorough bool) c19Case {
 	}
 	var atoms []c19Atom
 	slash := c19Atom{"/", false}
+	if r.Chance(22) {
+		// a wildcard in a non-final path element, below a literal prefix: the order of the joined
+		// paths is not the order of the names (`conf-old/x` < `conf.d/x` < `conf/x`)
+		star := c19Atom{"*", true}
+		k := r.Intn(len(names))
+		for _, name := range names[:k] {
+			atoms = append(atoms, c19Atom{name, false}, slash)
+		}
+		lead := names[k]
+		if len(lead) > 1 && r.Chance(50) {
+			lead = lead[:1+r.Intn(len(lead)-1)]
+		} else if r.Chance(50) {
+			lead = ""
+		}
+		shapes := [][]c19Atom{
+			{star, slash, star},
+			{star, slash, star, {".", false}, star},
+			{{lead, false}, star, slash, {"[a-z]", true}, star},
+			{{lead, false}, star, slash, star},
+			{star, slash},
+			{star, slash, star, slash, star},
+			{{lead, false}, star, slash, star, slash},
+			{star, slash, {"?", true}, star},
+			{{lead, false}, {"?", true}, star, slash, star},
+		}
+		atoms = append(atoms, shapes[r.Intn(len(shapes))]...)
+		cs.segs = c19QuoteAtoms(r, atoms, &cs.vars)
+		return cs
+	}
 	pwdParts := strings.Split(strings.TrimPrefix(cs.pwd, "/"), "/")
 	switch k := r.Intn(100); {
 	case k < 70:
@@ -1140,6 +1186,21 @@ func c19(c *Ctx) {
 		}
 		if len(fields) > 1 {
 			tags = append(tags, "multi-match")
+			// order-sensitive: visiting directories in name order would NOT give the byte order of the
+			// joined paths (a sibling's name continues another's with a byte below '/')
+			byComp := append([]string{}, fields...)
+			sort.SliceStable(byComp, func(a, b int) bool {
+				x, y := strings.Split(byComp[a], "/"), strings.Split(byComp[b], "/")
+				for k := 0; k < len(x) && k < len(y); k++ {
+					if x[k] != y[k] {
+						return x[k] < y[k]
+					}
+				}
+				return len(x) < len(y)
+			})
+			if strings.Join(byComp, "\x00") != strings.Join(fields, "\x00") && sort.StringsAreSorted(fields) {
+				tags = append(tags, "order-sensitive")
+			}
 		}
 		c.Case(toks, fsys.calls > 0, tags...)
 		j := c19Job{cs: cs, src: src, toks: toks, answer: answer, fields: fields, corpus: corpus, inside: inside}
@@ -1416,6 +1477,9 @@ func c19Excl(cs c19Case) string {
 			}
 		}
 	}
+	if esc0, _ := c19Escaped(cs); ext && c19UnterminatedExt(esc0) {
+		return "unterminated-extglob"
+	}
 	if esc0, _ := c19Escaped(cs); !ext && c19HasExtGroup(esc0) && cs.opts&c19NoGlob == 0 {
 		// bash classifies `@(` `+(` `!(` as pattern characters even without extglob: with nocaseglob the
 		// word can come back in the case of the file name, and `//` after it is collapsed
@@ -1631,7 +1695,7 @@ func c19SpecInside(cs c19Case) bool {
 			}
 			wb.WriteByte(ch.c)
 		}
-		if c19HasExtGroup(wb.String()) && (cs.opts&c19Ext == 0 || quotedParen) {
+		if c19HasExtGroup(wb.String()) && (cs.opts&c19Ext == 0 || quotedParen || c19UnterminatedExt(wb.String())) {
 			return false
 		}
 	}
@@ -1662,4 +1726,41 @@ func c19SpecInside(cs c19Case) bool {
 		ncomp++
 	}
 	return true
+}
+
+// c19UnterminatedExt: an extended-glob operator followed by '(' without a closing parenthesis
+// (C17-unterminated-extglob: pattern.Regexp then emits an uncompilable expression).
+func c19UnterminatedExt(p string) bool {
+	for i := 0; i+1 < len(p); i++ {
+		if p[i] == '\\' {
+			i++
+			continue
+		}
+		if strings.IndexByte("?*+@!", p[i]) >= 0 && p[i+1] == '(' {
+			depth := 0
+			closed := false
+			for j := i + 1; j < len(p); j++ {
+				switch p[j] {
+				case '\\':
+					j++
+				case '(':
+					depth++
+				case ')':
+					depth--
+					if depth == 0 {
+						closed = true
+					}
+				case '/':
+					j = len(p) // a group does not span path elements
+				}
+				if closed {
+					break
+				}
+			}
+			if !closed {
+				return true
+			}
+		}
+	}
+	return false
 }
